@@ -15,9 +15,12 @@ func Shoelace(pts [][2]float64) float64 {
 		return 0.
 	}
 
+	// relative to the first point: far from the origin of the CRS the products of the ordinates themselves
+	// are so large that a small area is lost in their rounding
+	o := pts[0]
 	p0 := pts[len(pts)-1]
 	for _, p1 := range pts {
-		sum += p0[1]*p1[0] - p0[0]*p1[1]
+		sum += (p0[1]-o[1])*(p1[0]-o[0]) - (p0[0]-o[0])*(p1[1]-o[1])
 		p0 = p1
 	}
 	return math.Abs(sum / 2)
